@@ -89,6 +89,7 @@ func GenBig(mode string) func(t *rapid.T) BigCase {
 func ExecBig(c BigCase) (res core.Result) {
 	defer func() {
 		if r := recover(); r != nil {
+			core.HarnessPanic(r)
 			res.Viol = core.Violate(c.Mode+"/panic", "allocator panicked: %v", r)
 		}
 		if res.Viol != nil && !strings.HasPrefix(res.Viol.Signature, c.Mode+"/") {
